@@ -631,6 +631,9 @@ func ruleC12(prog *Program, rep *Report) {
 	rulePresenceByNil(prog, rep) // a null member must reach the operators as null, not as Nothing
 	rulePrecAgree(prog, rep)     // "parentheses combine exactly as the script prints": parser and printer use one precedence relation
 	ruleDivGuard(prog, rep, []string{"jp:script.go"}, nil, 5)
+	ruleConstIdx(prog, rep, 20, func(rel, fn string) bool {
+		return strings.HasPrefix(fn, "Script.") || fn == "evalStack" || fn == "expandStack" || fn == "normalize" || fn == "same"
+	}, "jp")
 }
 
 // ruleTruthMatrix: M-truth and M-table (shared by C12 and C05).
